@@ -267,6 +267,9 @@ impl Discrete for Binomial {
     /// distribution at `k`.
     ///
     fn pmf(&self, k: i64) -> f64 {
+        if k < 0 || k as u64 > self.n {
+            return 0.;
+        }
         binom_coeff(self.n, k as u64) as f64
             * self.p.powi(k as i32)
             * (1. - self.p).powi((self.n - k as u64) as i32)
